@@ -20,7 +20,8 @@ func (ex *Exec) mapCompsOf(t types.Type) mapComps {
 	m := t.Underlying().(*types.Map)
 	tc := ex.vc.tc
 	ks, vs := tc.sortOf(m.Key()), tc.sortOf(m.Elem())
-	base := "M:" + mangle(ks) + ":" + mangle(vs)
+	// one heap per Go map type (objects of different map types cannot alias)
+	base := "M:" + mangle(types.TypeString(m, func(p *types.Package) string { return shortPkg(p) }))
 	mc := mapComps{has: base + ".has", val: base + ".val", ln: base + ".len", kt: m.Key(), vt: m.Elem(), ks: ks, vs: vs}
 	if _, ok := ex.vc.heapT[mc.has]; !ok {
 		ex.vc.heapT[mc.has] = heapComp{sort: sx("Array", ks, "Bool"), isArr: true}
@@ -163,7 +164,7 @@ func (ex *Exec) rangeNext(fr *Frame, st *State, x *ssa.Next) Value {
 	if !ok {
 		seen = ex.initialComp(it.seen)
 	}
-	has := sx("select", ex.mapHeap(st, mc.has), it.m.S)
+	has := vc.define("rhas", sx("Array", mc.ks, "Bool"), sx("select", ex.mapHeap(st, mc.has), it.m.S))
 	k := vc.fresh("rk", mc.ks)
 	okc := vc.fresh("rok", "Bool")
 	// ok <=> some present unseen key exists; when ok, k is such a key
